@@ -54,7 +54,7 @@ class Env:
             json.dump(plan or {}, f)
         # PATH holds the stand-ins only: a real docker CLI may be installed on the machine, and a stand-in that a scripted fault removed
         # must really be "not found"
-        env = {"PATH": self.bin, "TMPDIR": self.tmp, "CARGO_MANIFEST_DIR": self.crate, "VP_CMDLOG": self.log, "VP_CMDPLAN": self.plan, "VP_STANDIN_BIN": self.bin, "VP_STANDIN_TARGET": os.path.join(vp.BIN, "vpstandin"), "RUST_BACKTRACE": "0"}
+        env = {"PATH": self.bin, "HTTP_PROXY": "http://proxy.host:3128", "HTTPS_PROXY": "http://proxy.host:3128", "NO_PROXY": "localhost", "http_proxy": "http://proxy.host:3128", "https_proxy": "http://lower.proxy:1", "no_proxy": "x", "DOCKER_HOST": "unix:///nonexistent.sock", "TMPDIR": self.tmp, "CARGO_MANIFEST_DIR": self.crate, "VP_CMDLOG": self.log, "VP_CMDPLAN": self.plan, "VP_STANDIN_BIN": self.bin, "VP_STANDIN_TARGET": os.path.join(vp.BIN, "vpstandin"), "RUST_BACKTRACE": "0"}
         try:
             import shutil
             nobody = [shutil.which(vp.NOBODY[0]) or vp.NOBODY[0]] + vp.NOBODY[1:]
